@@ -374,18 +374,42 @@ Definition oracle_c03_run (before : list ident) (hs : list handler) (signer : na
   | _ => true
   end.
 
-Fixpoint oracle_c03_session (before : list ident) (ins : list run_in) (os : list run_obs) : bool :=
+(** "certificates left by earlier runs are gone, at most one generation
+    exists", said without reference to any label: after a successful run
+    through the regular handler the agent holds no certificate over a key pair
+    that an EARLIER run of the session generated ([old]). *)
+Definition in_keys (k : N) (l : list N) : bool := existsb (N.eqb k) l.
+Definition oracle_c03_gen (old : list N) (hs : list handler) (o : run_obs) : bool :=
+  match o_res o with
+  | Some _ => true
+  | None =>
+      match split_gen (o_log o) with
+      | (_, Some (i, _)) =>
+          match nth_error hs i with
+          | Some (Regular _) =>
+              forallb (fun x => match i_blob x with
+                                | BCert k' _ => negb (in_keys k' old)
+                                | BKey _ => true
+                                end) (o_store o)
+          | _ => true
+          end
+      | _ => true
+      end
+  end.
+
+Fixpoint oracle_c03_session (old : list N) (before : list ident) (ins : list run_in) (os : list run_obs) : bool :=
   match ins, os with
   | [], [] => true
   | ri :: ins', o :: os' =>
       oracle_c03_run before (ri_handlers ri) (ri_signer ri) o &&
-      oracle_c03_session (o_store o) ins' os'
+      oracle_c03_gen old (ri_handlers ri) o &&
+      oracle_c03_session (all_gen_keys (o_log o) ++ old) (o_store o) ins' os'
   | _, _ => false
   end.
 
 Definition oracle_c03 (c : case) : bool :=
   match c with
-  | CSession dir store0 _ _ runs => oracle_c03_session store0 (run_ins dir runs) (map cr_obs runs)
+  | CSession dir store0 _ _ runs => oracle_c03_session [] store0 (run_ins dir runs) (map cr_obs runs)
   | CNewHandler _ _ => true
   end.
 
